@@ -1,6 +1,6 @@
 (* C11 - DTCWT synthesis equals the reference inverse on arbitrary pyramids: colifilt and c2q. *)
 From PW Require Import Base.Ops Base.Sum Base.Sig Base.Tensor Model.Dwt Model.Dtcwt Spec.Line Spec.DtcwtRef
-  Proofs.DwtNF Proofs.DtcwtNF Proofs.DtcwtNFrow Proofs.QuadProofs.
+  Proofs.DwtNF Proofs.SfbNF Proofs.DtcwtNF Proofs.DtcwtNFrow Proofs.QuadProofs Proofs.QshiftLevel Proofs.C11Absent.
 
 (* colifilt, both parities of m/2 and both flags, for ANY input tensor *)
 Theorem C11_colifilt :
@@ -38,3 +38,28 @@ Theorem C11_c2q :
   tf q n c (2*i+1) (2*j+1) = rmul Op s (radd Op (ropp Op (tf w1r n c i j)) (tf w2r n c i j)).
 Proof. intros R Op Rth s w1r w1i w2r w2i n c i j. exact (c2q_values Op s w1r w1i w2r w2i n c i j). Qed.
 Print Assumptions C11_c2q.
+
+(* ---- absent inputs of one q-shift level are zeros (same_on A B: B has the shape of A and equals it on the extent) ---- *)
+(* lowpass absent (None) = a lowpass of zeros of the size the level expects (that of the highpass quads) *)
+Theorem C11_absent_lowpass :
+  forall (R:Type) (Op:Ops R) (Rth:RingOk Op) (s:R) (hs:list (@ten R)) (Z0:@ten R) L (G0A G0B G1A G1B:Z->R),
+  2 <= L -> L mod 2 = 0 -> length hs = 12%nat ->
+  let '(lh, hl, hh) := orientations_to_highs Op s hs in
+  2 <= tH lh -> tH lh mod 2 = 0 -> 2 <= tW lh -> tW lh mod 2 = 0 -> 0 < tC lh ->
+  same_shape lh hl = true -> same_shape lh hh = true -> same_shape lh Z0 = true ->
+  (forall n c i j, tf Z0 n c i j = r0 Op) ->
+  is_ok (inv_j2plus Op s None hs L (rev_filt L G0B) (rev_filt L G0A) L (rev_filt L G1B) (rev_filt L G1A)) (fun y0 =>
+  is_ok (inv_j2plus Op s (Some Z0) hs L (rev_filt L G0B) (rev_filt L G0A) L (rev_filt L G1B) (rev_filt L G1A)) (fun y1 => same_on y0 y1)).
+Proof. exact @inv_j2plus_none_low. Qed.
+Print Assumptions C11_absent_lowpass.
+(* highpass level absent (no planes) = twelve planes of zeros of half the lowpass size *)
+Theorem C11_absent_highs :
+  forall (R:Type) (Op:Ops R) (Rth:RingOk Op) (s:R) (l zp:@ten R) L (G0A G0B G1A G1B:Z->R),
+  2 <= L -> L mod 2 = 0 -> 2 <= tH l -> tH l mod 2 = 0 -> 2 <= tW l -> tW l mod 2 = 0 -> 0 < tC l ->
+  tN zp = tN l -> tC zp = tC l -> 2 * tH zp = tH l -> 2 * tW zp = tW l -> (forall n c i j, tf zp n c i j = r0 Op) ->
+  is_ok (inv_j2plus Op s (Some l) nil L (rev_filt L G0B) (rev_filt L G0A) L (rev_filt L G1B) (rev_filt L G1A)) (fun y0 =>
+  is_ok (inv_j2plus Op s (Some l) [zp;zp;zp;zp;zp;zp;zp;zp;zp;zp;zp;zp] L (rev_filt L G0B) (rev_filt L G0A) L (rev_filt L G1B) (rev_filt L G1A)) (fun y1 =>
+    same_on y0 y1)).
+Proof. exact @inv_j2plus_none_highs. Qed.
+Print Assumptions C11_absent_highs.
+
